@@ -258,6 +258,11 @@ func (ga *GroupAggregator) Add(data any) error {
 				continue
 			}
 
+			// A NULL expression result is skipped like a NULL column value below
+			if result == nil && !ga.shouldAllowNullValues(aggField.AggregateType) {
+				continue
+			}
+
 			if groupAgg, exists := ga.groups[key][outputAlias]; exists {
 				groupAgg.Add(result)
 			}
